@@ -40,6 +40,10 @@ pub struct InstallManifestBuilder {
     tags: Vec<InstallTag>,
     entries: Vec<InstallFileEntry>,
     tag_name_to_index: HashMap<String, usize>,
+    /// Header of the manifest this builder was made from (`from_manifest`).
+    /// `build` keeps its format version: a V2 manifest is written back with
+    /// the V2 header fields and a file-type byte in every entry.
+    base_header: Option<InstallHeader>,
 }
 
 impl InstallManifestBuilder {
@@ -49,6 +53,7 @@ impl InstallManifestBuilder {
             tags: Vec::new(),
             entries: Vec::new(),
             tag_name_to_index: HashMap::new(),
+            base_header: None,
         }
     }
 
@@ -65,6 +70,7 @@ impl InstallManifestBuilder {
             tags: manifest.tags.clone(),
             entries: manifest.entries.clone(),
             tag_name_to_index,
+            base_header: Some(manifest.header.clone()),
         }
     }
 
@@ -244,17 +250,32 @@ impl InstallManifestBuilder {
     ///
     /// Creates the header with current counts and validates the result.
     pub fn build(self) -> Result<InstallManifest> {
-        let header = InstallHeader::new(
-            u16::try_from(self.tags.len())
-                .map_err(|_| InstallError::TagNotFound("Too many tags".to_string()))?,
-            u32::try_from(self.entries.len())
-                .map_err(|_| InstallError::TagNotFound("Too many entries".to_string()))?,
-        );
+        let tag_count = u16::try_from(self.tags.len())
+            .map_err(|_| InstallError::TagNotFound("Too many tags".to_string()))?;
+        let entry_count = u32::try_from(self.entries.len())
+            .map_err(|_| InstallError::TagNotFound("Too many entries".to_string()))?;
+
+        let mut entries = self.entries;
+        let header = match self.base_header {
+            // Made from a V2 manifest: keep the V2 layout. Entries added through
+            // this builder have no file type yet; a V2 entry always carries one.
+            Some(mut base) if base.version >= 2 => {
+                base.tag_count = tag_count;
+                base.entry_count = entry_count;
+                for entry in &mut entries {
+                    if entry.file_type.is_none() {
+                        entry.file_type = Some(0);
+                    }
+                }
+                base
+            }
+            _ => InstallHeader::new(tag_count, entry_count),
+        };
 
         let manifest = InstallManifest {
             header,
             tags: self.tags,
-            entries: self.entries,
+            entries,
         };
 
         // Validate the built manifest
@@ -358,6 +379,7 @@ impl InstallManifestBuilder {
             tags: self.tags.clone(),
             entries: self.entries.clone(),
             tag_name_to_index: self.tag_name_to_index.clone(),
+            base_header: self.base_header.clone(),
         }
     }
 }
